@@ -161,7 +161,9 @@ def check_group_Ad(w, rep, name, G, tier):
             verdict(rep, "C04.hom", "%s Ad(XY) = Ad(X) Ad(Y)" % name, ADP[0], cm.matmul(AD, ADP[1]), quats, W("adjoint"), "Ad is not a homomorphism",
                     unknown_ok=(kind in ("mrp", "euler", "so2", "dcm")))
     oki, ADI = guarded(w, rep, "C04.hom", "%s Ad(X^-1)" % name, lambda: w.call(w.call(X, "inverse"), "Ad"))
-    if oki:
+    if oki and kind == "dcm":
+        rep.na("C04.hom", "%s Ad(X^-1) Ad(X) = I" % name, "needs orthonormality of the nine DCM parameters, which the canonical form does not express")
+    elif oki:
         with with_maxdeg(14):
             verdict(rep, "C04.hom", "%s Ad(X^-1) Ad(X) = I" % name, cm.matmul(ADI, AD), eye(n), quats, W("adjoint"), "Ad of the inverse is not the inverse of Ad",
                     unknown_ok=(kind in ("mrp", "euler", "dcm")))
@@ -322,7 +324,7 @@ def run(w, rep, tier):
         check_group_Ad(w, rep, nm, G, tier)
     check_elementwise(w, rep)
     check_direct_sum(w, rep)
-    rep.floor("C04.API", 12 + 7 * 3)
+    rep.floor("C04.API", 12 + 7 * 2)
     rep.floor("C04.TAB", 7 * 4)
     rep.floor("C04.conj", 6)
     rep.undecided_clause("Ad_exp(x) = expm(ad_x) (transcendental)")
